@@ -12,11 +12,11 @@ Lemma np_ports_total ports dst pr n : forall res c, np_ports_conns ports dst res
 Proof.
   induction ports as [|pp t IH]; intros res c H; cbn [np_ports_conns np_ports_contain] in *; [eexists; reflexivity|].
   destruct (pp_port pp) as [|a|nm] eqn:Hp.
-  - cbn [bind] in H. destruct (proto_eqb (pp_proto pp) pr); [eexists; reflexivity|]. apply (IH _ _ H).
+  - cbn [bind] in H. destruct (IH _ _ H) as [rest Hr]. rewrite Hr. cbn [bind]. eexists; reflexivity.
   - destruct (get_ports_range pp dst) as [r|e]; cbn [bind] in *; [|discriminate H].
-    destruct (rule_port_contains (pp_proto pp) pr r n); [eexists; reflexivity|]. apply (IH _ _ H).
+    destruct (IH _ _ H) as [rest Hr]. rewrite Hr. cbn [bind]. eexists; reflexivity.
   - destruct (get_ports_range pp dst) as [r|e]; cbn [bind] in *; [|discriminate H].
-    destruct (rule_port_contains (pp_proto pp) pr r n); [eexists; reflexivity|]. apply (IH _ _ H).
+    destruct (IH _ _ H) as [rest Hr]. rewrite Hr. cbn [bind]. eexists; reflexivity.
 Qed.
 
 Lemma np_rule_total ports dst pr n c : np_rule_conns ports dst = Ok c -> okb (np_rule_contains ports dst pr n).
@@ -31,7 +31,8 @@ Proof.
   destruct (np_rule_selects npns (nr_peers r) other) as [sel|e]; cbn [bind] in *; [|discriminate H].
   destruct sel; cbn [negb] in *; [|apply (IH _ _ H)].
   destruct (np_rule_conns (nr_ports r) dst) as [rc|e] eqn:Erc; cbn [bind] in H; [|discriminate H].
-  destruct (np_rule_total _ _ pr n _ Erc) as [b Hb]. rewrite Hb. cbn [bind]. destruct b; [eexists; reflexivity|apply (IH _ _ H)].
+  destruct (np_rule_total _ _ pr n _ Erc) as [b Hb]. rewrite Hb. cbn [bind].
+  destruct (IH _ _ H) as [rest Hr]. rewrite Hr. cbn [bind]. eexists; reflexivity.
 Qed.
 
 Lemma nps_total sel src dst ingress pr n : forall acc c,
@@ -41,7 +42,7 @@ Proof.
   destruct (np_dir_conns np src dst ingress) as [pc|e] eqn:Epc; cbn [bind] in H; [|discriminate H].
   assert (Hp : okb (np_policy_allows np src dst ingress pr n)).
   { unfold np_dir_conns in Epc. unfold np_policy_allows. destruct ingress; apply (np_rules_total _ _ _ _ pr n _ _ Epc). }
-  destruct Hp as [b Hb]. rewrite Hb. cbn [bind]. destruct b; [eexists; reflexivity|apply (IH _ _ H)].
+  destruct Hp as [b Hb]. rewrite Hb. cbn [bind]. destruct (IH _ _ H) as [rest Hr]. rewrite Hr. cbn [bind]. eexists; reflexivity.
 Qed.
 
 Lemma np_layer_total w src dst ingress pr n r : np_layer w src dst ingress = Ok r -> okb (np_layer_point w src dst ingress pr n).
